@@ -70,6 +70,7 @@ structure Block where
   txKeymr : String := ""
   fcts : List FctTx := []
   burnRCD : Addr := ""
+  stakeOrder : List Addr := []     -- order oracle for equal stakes (DESIGN §3.4 site 1); [] = default
   deriving Repr
 
 /-! ### process state -/
@@ -247,7 +248,19 @@ def insertSortedStake (x : Addr × Nat) : List (Addr × Nat) → List (Addr × N
 def sortStakes (l : List (Addr × Nat)) : List (Addr × Nat) :=
   l.foldl (fun acc x => insertSortedStake x acc) []
 
-def snapshotPayouts (P : Params) (h : Nat) (ts : Int) (rates : TMap) : LM Unit := do
+def stakesAscending : List (Addr × Nat) → Bool
+  | [] => true
+  | [_] => true
+  | x :: y :: rest => decide (x.2 ≤ y.2) && stakesAscending (y :: rest)
+
+/-- use the oracle's order when it is a permutation of the eligible stakers that is ascending by
+    stake (every such order is a possible result of `range` over a map + `sort.Slice`). -/
+def orderStakes (order : List Addr) (l : List (Addr × Nat)) : List (Addr × Nat) :=
+  let r := order.filterMap (fun a => l.find? (·.1 == a))
+  if order.length == l.length && r.length == l.length && order.eraseDups.length == order.length && stakesAscending r
+  then r else sortStakes l
+
+def snapshotPayouts (P : Params) (h : Nat) (ts : Int) (rates : TMap) (order : List Addr := []) : LM Unit := do
   -- SnapshotCurrent
   M.modify fun db => { db with snapPast := db.snapCur, snapCur := db.addrs }
   let db ← M.get
@@ -262,7 +275,7 @@ def snapshotPayouts (P : Params) (h : Nat) (ts : Int) (rates : TMap) : LM Unit :
       | none => M.throw (.uncaught "staking valuation: convert failed")
       | some s => pure (l ++ [(j.1, s)])) (pure []))
   if staked.any (fun p => decide (p.2 > maxUint64)) then M.throw (.uncaught "balance that is not uint64")
-  let list := sortStakes (staked.filter (fun p => decide (p.2 > 0)))
+  let list := orderStakes order (staked.filter (fun p => decide (p.2 > 0)))
   if !list.isEmpty then do
     let txid := txidOfHeight h
     let reqs := list.zipIdx.map fun p => (({ idx := p.2, hash := txid } : TxKey), p.1.2)
@@ -460,7 +473,7 @@ def syncBlock (P : Params) (c : DB) (b : Block) (avgs : TMap) : LM Unit := do
       let rates0 := ratesToMap P (db.ratesAt h)
       if h ≥ P.act.v20 ∧ h % P.snapshotRate = 0 then
         let rates1 := if rates0.isEmpty ∧ h ≥ P.act.v202 then ratesToMap P (db.mostRecentRatesBefore h).1 else rates0
-        snapshotPayouts P h b.ts rates1
+        snapshotPayouts P h b.ts rates1 b.stakeOrder
       if ratesAvailable then
         if h ≥ P.act.v4 ∧ h < P.act.v20 then insertBank h P.bankBase
         M.modify fun db => { db with avgTouched := true }
